@@ -4,7 +4,7 @@ import Amshan.Lemmas.HdlcClean
   aborted, discarded or invalid frame never corrupts the frame that follows it.
 -/
 namespace Amshan.C16
-open Amshan.Gen Amshan.Hdlc Amshan.HdlcSpec
+open Amshan.Gen Amshan.Hdlc Amshan.HdlcSpec Amshan.HdlcClean
 
 /-- **C16 (octet stuffing).** After ANY octets `pre` (noise, look-alike frame starts, a prefix ending
     in an escape octet, truncated frames, abort sequences …) a clean stream of stuffed well-formed
@@ -15,7 +15,7 @@ theorem hdlc_resync_stuffing (cfg : Cfg) (hst : cfg.stuffing = true) (pre : List
     (hfs : ∀ p ∈ fs, p.1.WF ∧ 1 ≤ p.2) (hcl : 1 ≤ closing) :
     ∃ junk, (run cfg Core.init (pre ++ wire true [] fs closing)).2 =
       junk ++ fs.tail.map (fun p => expectedFrame p.1) := by
-  sorry
+  exact resync_stuffing_run cfg hst pre hpre fs closing hfs hcl
 
 /-- the same through any splitting into `read()` calls -/
 theorem hdlc_resync_stuffing_chunked (cfg : Cfg) (hst : cfg.stuffing = true) (pre : List Nat)
@@ -24,7 +24,8 @@ theorem hdlc_resync_stuffing_chunked (cfg : Cfg) (hst : cfg.stuffing = true) (pr
     (chunks : List (List Nat)) (hch : chunks.flatten = pre ++ wire true [] fs closing) :
     ∃ junk, (readAll cfg Reader.init chunks).2.flatten =
       junk ++ fs.tail.map (fun p => expectedFrame p.1) := by
-  sorry
+  rw [readAll_init, hch]
+  exact resync_stuffing_run cfg hst pre hpre fs closing hfs hcl
 
 /-- **C16 (no stuffing).** Frames that contain no flag octet are delivered once the garbage frame in
     progress has died: there is a point at most `maxFrameLen` octets plus one frame (with its fill)
@@ -38,6 +39,6 @@ theorem hdlc_resync_plain (cfg : Cfg) (hst : cfg.stuffing = false) (pre : List N
     ∃ junk k, (run cfg Core.init (pre ++ wire false [] fs closing)).2 =
         junk ++ (fs.drop k).map (fun p => expectedFrame p.1) ∧
       ((fs.take k).map (fun p => p.2 + p.1.encode.length)).sum ≤ maxFrameLen + L + L := by
-  sorry
+  exact resync_plain_run cfg hst pre hpre fs closing L hfs hcl
 
 end Amshan.C16
